@@ -367,4 +367,43 @@ theorem C13_write_ble_rejected_raises (pre post : List (Key × Perm × Bool)) (k
   rw [aux pre [] [] hpre]
   simp
 
+/-! ## BLE reads: values only -/
+
+/-- **A BLE read never invents or misattributes a value**: every entry of the result is a requested
+    characteristic that the accessory answered with exactly that value. -/
+theorem C13_ble_read_values_genuine (req : List (Key × BleAnswer)) (k : Key) (v : Nat)
+    (h : (k, v) ∈ bleGet req) : (k, BleAnswer.value v) ∈ req := by
+  induction req with
+  | nil => simp [bleGet] at h
+  | cons x rest ih =>
+    obtain ⟨k', a⟩ := x
+    cases a with
+    | value v' =>
+      simp only [bleGet, List.mem_cons, Prod.mk.injEq] at h
+      rcases h with ⟨rfl, rfl⟩ | h
+      · simp
+      · exact List.mem_cons_of_mem _ (ih h)
+    | refused st => exact List.mem_cons_of_mem _ (ih (by simpa [bleGet] using h))
+    | undecodable => exact List.mem_cons_of_mem _ (ih (by simpa [bleGet] using h))
+
+/-- every characteristic the accessory answered with a value is in the result with that value, in fetch order -/
+theorem C13_ble_read_values_complete (req : List (Key × BleAnswer)) (k : Key) (v : Nat)
+    (h : (k, BleAnswer.value v) ∈ req) : (k, v) ∈ bleGet req := by
+  induction req with
+  | nil => cases h
+  | cons x rest ih =>
+    obtain ⟨k', a⟩ := x
+    simp only [List.mem_cons, Prod.mk.injEq] at h
+    rcases h with ⟨rfl, rfl⟩ | h
+    · simp [bleGet]
+    · cases a <;> simp [bleGet, ih h]
+
+/-- **The unchanged BLE read path leaves a refused characteristic out of the result** - neither a value nor an
+    error status, which the first sentence of the property demands (open known finding
+    `ble-e2e/read-refused-item-omitted`, replayed on the real `BlePairing.get_characteristics` on every run) -/
+theorem C13_ble_read_counterexample_refused_omitted :
+    ∃ (req : List (Key × BleAnswer)) (k : Key) (st : Nat), (k, BleAnswer.refused st) ∈ req ∧ st ≠ 0 ∧
+      ∀ v, (k, v) ∉ bleGet req :=
+  ⟨[((1, 12), .refused 3)], (1, 12), 3, by simp, by decide, by simp [bleGet]⟩
+
 end HapVerif.C13
